@@ -141,6 +141,10 @@ def run(ctx):
     for r in range(ctx.scale(6, 30)):
         runs.append((["enqprio", 1 + r % 2, r % 3, (r // 3) % 2], "NOTRUN", "task_arena::enqueue into a normal-priority arena in which nobody waits, while an arena of %s priority has worker demand (%s), max_allowed_parallelism = %d" % (
             ["high", "normal", "low"][r % 3], ["a thread busy inside execute() with spawned tasks", "left over from a finished parallel_for"][(r // 3) % 2], 1 + r % 2)))
+    for r in range(ctx.scale(6, 24)):
+        P, K, R_, W = [(2, 1, 0, 1), (1, 1, 0, 1), (2, 2, 0, 2), (2, 2, 1, 1), (1, 2, 1, 2), (2, 3, 0, 3)][r % 6]
+        runs.append((["execwait", P, K, R_, W], "STUCK", "task_arena(%d,%d) with every slot taken by threads inside execute(), %d more thread(s) asleep in execute(); the occupants leave; max_allowed_parallelism = %d "
+                     "(%s): every waiter must get in within 4 s" % (K, R_, W, P, "no workers" if P == 1 else "the only worker is busy in another arena")))
     for r in range(ctx.scale(6, 18)):
         A, R = [(1, 1), (2, 1), (4, 1), (1, 1), (3, 1), (3, 0)][r % 6]
         runs.append((["enqafter", A, R, r % 3], "NOTRUN", "task_arena(%d,%d) used before (%s), then a fire-and-forget enqueue with nobody joining the arena must run exactly once within 6 s" % (
